@@ -1,5 +1,6 @@
 import GenjaxVerif.Lemmas.GFIReplay
 import GenjaxVerif.Lemmas.GFIGenerate
+import GenjaxVerif.Lemmas.GFIIndex
 import GenjaxVerif.Props.GFITest
 /-!
 # C11 — vmap and repeat behave as independent elementwise calls
@@ -65,5 +66,30 @@ theorem C11_repeat_element_args (n k : Nat) (args : List Val) (hk : k < n) :
         let ea ← sliceArgs [true, false] ia k
         Pre.apply (.whole (.var 1)) ea) = .ok args := by
   simp [Pre.apply, Expr.eval, Expr.evalL, sliceArgs, bind, Except.bind, pure, Except.pure, hk]
+
+end GenjaxVerif.GFI
+
+namespace GenjaxVerif.GFI
+open GenjaxVerif
+
+/-- `IndexRequest(idx, request)` on a vmap trace edits element `idx` only — by the inner function's own
+    edit on that element's slice of the arguments — and keeps every other element as it is; its
+    weight is the element's weight and its backward request sits under index `idx`. -/
+theorem C11_index_request_edits_one_element (ds : DistSem) (m : Mode) (p : Prog) (axes : List Bool) (key : KeyPath)
+    (args ret : Val) (elems : List Trace) (idx : Nat) (c : CMap) (sel : Sel) (r : Res)
+    (h : editIndex ds m (.vmap p axes) key (.vec args ret elems) idx c sel = .ok r) :
+    ∃ (hk : idx < elems.length) (as ea : List Val) (r' : Res), argList args = .ok as ∧ sliceArgs axes as idx = .ok ea ∧
+      run ds m p { c, sel, old := some elems[idx], key, args := .tup ea } = .ok r' ∧
+      r.tr = .vec args (.arr ((elems.set idx r'.tr).map (·.ret))) (elems.set idx r'.tr) ∧
+      r.w = r'.w ∧ r.bwd = CMap.pre [.i idx] r'.bwd :=
+  vmap_index_edit ds m p axes key args ret elems idx c sel r h
+
+/-- … and the weight of an index Update is new score − old score of the whole vmap trace. -/
+theorem C11_index_update_weight (ds : DistSem) (p : Prog) (axes : List Bool) (key : KeyPath)
+    (args ret : Val) (elems : List Trace) (idx : Nat) (c : CMap) (sel : Sel) (r : Res)
+    (hs : ∀ t ∈ elems, Shape p t) (hsafe : Safe false p)
+    (h : editIndex ds .upd (.vmap p axes) key (.vec args ret elems) idx c sel = .ok r) :
+    r.w = r.tr.score - (Trace.vec args ret elems).score :=
+  vmap_index_update_weight ds p axes key args ret elems idx c sel r hs hsafe h
 
 end GenjaxVerif.GFI
